@@ -7,6 +7,8 @@ pub mod c15;
 pub mod c17;
 pub mod c18;
 pub mod c19;
+pub mod c20;
+pub mod c20_model;
 
 pub fn dispatch(ctx: &Ctx, replay: Option<&Value>, rest: &[String]) -> i32 {
     match ctx.id.as_str() {
@@ -16,6 +18,7 @@ pub fn dispatch(ctx: &Ctx, replay: Option<&Value>, rest: &[String]) -> i32 {
         "C17" => c17::run(ctx, replay),
         "C18" => c18::run(ctx, replay),
         "C19" => c19::run(ctx, replay, rest),
+        "C20" => c20::run(ctx, replay),
         other => {
             eprintln!("mvbin: unknown property {}", other);
             2
